@@ -202,6 +202,31 @@ func (i *interpreter) zzCall(fr *frame, fn *ssa.Function, args []value) value {
 		return containsSym(args[0])
 	case "UFInt64", "UFUint32", "UFBool":
 		return i.ufApply(name, strArg(args[0]), args[1].([]value))
+	case "CallAnon":
+		// CallAnon(name, freeVars []interface{}, args ...interface{}): run an
+		// anonymous function of the package under test (e.g. the body of a
+		// goroutine) as a unit, with the given captured variables (pointers).
+		target := i.findAnon(fr, strArg(args[0]))
+		if target == nil {
+			panic(unsupported{"CallAnon: no anonymous function " + strArg(args[0])})
+		}
+		unwrap := func(vs []value) []value {
+			out := make([]value, len(vs))
+			for k, v := range vs {
+				out[k] = v.(iface).v
+			}
+			return out
+		}
+		free := unwrap(args[1].([]value))
+		if len(free) != len(target.FreeVars) {
+			var names []string
+			for _, fv := range target.FreeVars {
+				names = append(names, fv.Name()+" "+fv.Type().String())
+			}
+			panic(unsupported{fmt.Sprintf("CallAnon %s: want %d free variables %v", target, len(target.FreeVars), names)})
+		}
+		px.stubsUsed["CallAnon "+target.String()+" (goroutine body run as a unit)"] = true
+		return callSSA(i, fr, token.NoPos, target, unwrap(args[2].([]value)), free)
 	case "Unsupported":
 		panic(unsupported{"harness: " + strArg(args[0])})
 	case "Logf":
@@ -1010,4 +1035,33 @@ func intErrgroupWait(fr *frame, a []value) value {
 		return e
 	}
 	return iface{}
+}
+
+func (i *interpreter) findAnon(fr *frame, name string) *ssa.Function {
+	var pkg *ssa.Package
+	for f := fr.caller; f != nil; f = f.caller {
+		if f.fn.Pkg != nil {
+			pkg = f.fn.Pkg
+			break
+		}
+	}
+	if pkg == nil {
+		return nil
+	}
+	var found *ssa.Function
+	var walk func(f *ssa.Function)
+	walk = func(f *ssa.Function) {
+		for _, a := range f.AnonFuncs {
+			if a.Name() == name {
+				found = a
+			}
+			walk(a)
+		}
+	}
+	for _, m := range pkg.Members {
+		if f, ok := m.(*ssa.Function); ok {
+			walk(f)
+		}
+	}
+	return found
 }
